@@ -44,7 +44,7 @@ int unlink(const char *p)
   int kind = p == fn.s ? g_fn_kind : g_fn2_kind; unsigned long id = p == fn.s ? g_fn_id : g_fn2_id;
   V_ASSERT((p == fn.s || p == fn2.s) && id == g_id, "C02: only files of the message being handled are removed");
   V_ASSERT(g_nunlink < 4, "C02: supporting"); g_unlink_kind[g_nunlink] = kind;
-  if (ND_BOOL()) { g_unlink_ok[g_nunlink++] = 0; V_HAVOC_ERRNO(); return -1; }
+  if (ND_BOOL()) { g_unlink_ok[g_nunlink++] = 0; V_HAVOC_ERRNO(); if (errno == ENOENT && k_file[kind] != 2) k_file[kind] = 1; return -1; }
   g_unlink_ok[g_nunlink++] = 1; k_file[kind] = 1; return 0;
 }
 void log1(char *a) {} void qslog2(char *a, char *b) {} void log3(char *a, char *b, char *c) {} void logsa(stralloc *s) {} void nomem(void) { V_ASSUME(0); } void pausedir(char *d) {} void logsafe(char *s) {}
@@ -562,5 +562,81 @@ void h_reget(void)
   if (g_rl == 1 && g_rv != -1) V_ASSERT(g_init_l && g_init_v && g_frees == 2, "C10: after a successful re-read both tables are rebuilt");
   else V_ASSERT(!g_init_l && !g_init_v && !g_frees, "C10: if the control files cannot be re-read the old tables stay in force");
   V_COVER(g_init_v && g_rv == 1);
+}
+#endif
+
+/* ================= todo_do: preprocessing of one new message ================= */
+#ifdef P_TODO
+#include <dirent.h>
+static struct dirent de; static int ddummy; static char tl[16], rwb[8];
+int g_phase;  /* 0 before reading, 1 reading records, 2 after EOF */
+int g_eof, g_readerr, g_pendingT, g_verdict, g_F_written, g_info_created, g_info_dirty, g_info_synced, g_info_closed, g_todo_closed;
+int g_chan_created[CHANNELS], g_chan_dirty[CHANNELS], g_chan_synced[CHANNELS], g_chan_closed[CHANNELS], g_nT[CHANNELS], g_requested, g_clean_ok, g_fail_seen, g_mess_stat;
+void trigger_set(void) {} int trigger_pulled(fd_set *r) { return 1; }
+DIR *opendir(const char *n) { return (DIR *)&ddummy; }
+struct dirent *readdir(DIR *d) { de.d_name[0] = '1'; de.d_name[1] = '2'; de.d_name[2] = 0; return &de; }
+int closedir(DIR *d) { return 0; }
+unsigned int scan_ulong(char *s, unsigned long *u) { if (s == de.d_name) { *u = g_id; return 2; } *u = ND_ULONG(); return ND_UINT() % 8; }
+int open_read(char *f) { V_ASSERT(f == fn.s && g_fn_kind == F_TODO && g_fn_id == g_id, "C03: supporting: the todo file of this message is read"); if (ND_BOOL()) { V_HAVOC_ERRNO(); return -1; } return 19; }
+int open_excl(char *f)
+{
+  V_ASSERT(f == fn.s && g_fn_id == g_id, "C02: supporting: files of this message only");
+  if (g_fn_kind == F_INFO) { V_ASSERT(k_file[F_INFO] == 1 && k_file[F_LOCAL] == 1 && k_file[F_REMOTE] == 1, "C02: info is created only after stale info/local/remote files of an interrupted earlier attempt were removed"); if (ND_BOOL()) { g_fail_seen = 1; V_HAVOC_ERRNO(); return -1; } g_info_created = 1; k_file[F_INFO] = 2; return 20; }
+  { int c = g_fn_kind == F_LOCAL ? 0 : 1; V_ASSERT(g_fn_kind == F_LOCAL || g_fn_kind == F_REMOTE, "C02: supporting"); V_ASSERT(g_info_created && !g_chan_created[c], "C02: a recipient list is created once, after info");
+    if (ND_BOOL()) { g_fail_seen = 1; V_HAVOC_ERRNO(); return -1; } g_chan_created[c] = 1; return 21 + c; }
+}
+int getln(substdio *ss, stralloc *sa, int *match, int sep)
+{
+  V_ASSERT(ss->fd == 19 && sa == &todoline && sep == 0, "C03: supporting: records of the todo file");
+  V_ASSERT(!g_pendingT, "C03,C10: every recipient record read is written to a channel list before the next record is read (none dropped, order kept)");
+  V_ASSERT(!g_eof, "C03: supporting: nothing is read after the end of the file");
+  g_phase = 1;
+  if (ND_BOOL()) { g_readerr = 1; g_fail_seen = 1; V_HAVOC_ERRNO(); return -1; }
+  if (ND_BOOL()) { g_eof = 1; g_phase = 2; *match = 0; sa->s = tl; sa->len = ND_UINT() % 16; return 0; }
+  tl[0] = ND_CHAR(); sa->s = tl; sa->a = 16; sa->len = 1 + ND_UINT() % 1000; *match = 1;
+  if (tl[0] == 'T') g_pendingT = 1;
+  return 0;
+}
+int substdio_putflush(substdio *s, const char *b, size_t n)
+{
+  if (s == &sstoqc) {
+    V_ASSERT(b == fn.s && g_fn_kind == F_TODO && g_fn_id == g_id, "C02: qmail-clean is asked to remove todo/<id> (and intd/<id>) of this message");
+    V_ASSERT(g_eof && !g_readerr && !g_pendingT && !g_fail_seen, "C03: the todo entry is removed only after the whole envelope was read without error and every recipient was written");
+    V_ASSERT(g_info_created && !g_info_dirty && g_info_synced && g_info_closed, "C03: the todo entry is removed only after info was flushed, fsynced and closed");
+    { int c; for (c = 0; c < CHANNELS; ++c) V_ASSERT(!g_chan_created[c] || (!g_chan_dirty[c] && g_chan_synced[c] && g_chan_closed[c]), "C03: the todo entry is removed only after every recipient list was flushed, fsynced and closed"); }
+    g_requested = 1; return ND_BOOL() ? -1 : 0;
+  }
+  V_ASSERT(s->fd == 20 && b == todoline.s && tl[0] == 'F', "C10: supporting: the sender record goes to info");
+  if (ND_BOOL()) { g_fail_seen = 1; V_HAVOC_ERRNO(); return -1; }
+  g_F_written = 1; g_info_synced = 0; return 0;
+}
+int substdio_bput(substdio *s, const char *b, size_t n)
+{
+  int c = s->fd - 21;
+  V_ASSERT((c == 0 || c == 1) && g_chan_created[c] && b == rwline.s, "C10: supporting: rewritten recipients go to a created channel list");
+  V_ASSERT(g_pendingT && c == (g_verdict == 2 ? 1 : 0), "C10,C03: every recipient is written to exactly the channel its classification says (local or remote), once");
+  g_pendingT = 0;
+  if (ND_BOOL()) { g_fail_seen = 1; V_HAVOC_ERRNO(); return -1; }
+  g_chan_dirty[c] = 1; g_chan_synced[c] = 0; if (g_nT[c] < 1000) ++g_nT[c]; return 0;
+}
+int substdio_flush(substdio *s) { int f = s->fd; if (ND_BOOL()) { g_fail_seen = 1; V_HAVOC_ERRNO(); return -1; } if (f == 20) g_info_dirty = 0; else if (f == 21 || f == 22) g_chan_dirty[f - 21] = 0; return 0; }
+int fsync(int fd) { if (ND_BOOL()) { g_fail_seen = 1; V_HAVOC_ERRNO(); return -1; } if (fd == 20 && !g_info_dirty) g_info_synced = 1; if ((fd == 21 || fd == 22) && !g_chan_dirty[fd - 21]) g_chan_synced[fd - 21] = 1; return 0; }
+int close(int fd) { if (fd == 20) g_info_closed = 1; if (fd == 21 || fd == 22) g_chan_closed[fd - 21] = 1; if (fd == 19) g_todo_closed = 1; return 0; }
+ssize_t substdio_get(substdio *s, char *b, size_t n) { V_ASSERT(s == &ssfromqc && g_requested, "C02: supporting"); if (ND_BOOL()) return 0; *b = ND_BOOL() ? '+' : 'x'; g_clean_ok = (*b == '+'); return 1; }
+void h_todo(void)
+{
+  fd_set r; int c, n = 0;
+  common_init(); tododir = 0; nexttodorun = 0;
+  g_phase = g_eof = g_readerr = g_pendingT = g_F_written = g_info_created = g_info_dirty = g_info_synced = g_info_closed = g_todo_closed = g_requested = g_clean_ok = g_fail_seen = 0;
+  for (c = 0; c < CHANNELS; ++c) g_chan_created[c] = g_chan_dirty[c] = g_chan_synced[c] = g_chan_closed[c] = g_nT[c] = 0;
+  rwline.s = rwb; rwline.len = 1 + ND_UINT() % 1000; todoline.s = tl; chanaddr[0] = "local/"; chanaddr[1] = "remote/";   /* DFCC havocs statics */
+  todo_do(&r);
+  if (g_nins) {
+    V_ASSERT(g_requested && g_clean_ok, "C03: a message enters the delivery queues only after its todo entry was removed");
+    for (c = 0; c < CHANNELS; ++c) { int found = 0, i; for (i = 0; i < g_nins; ++i) if (g_ins_q[i] == &pqchan[c]) { ++found; V_ASSERT(g_ins_id[i] == g_id, "C03: supporting"); }
+      V_ASSERT(found == (g_chan_created[c] != 0), "C03: a preprocessed message is scheduled on exactly the channels that got a recipient list"); n += found; }
+    if (!n) V_ASSERT(g_nins == 1 && g_ins_q[0] == &pqdone, "C03: a message without recipients is queued for completion");
+  } else if (g_requested && g_clean_ok) V_ASSERT(0, "C03: once its todo entry is gone a message is always scheduled (never forgotten)");
+  V_COVER(g_nins == 2); V_COVER(g_requested && g_nT[0] > 1 && g_nT[1] > 0); V_COVER(g_fail_seen && g_info_created);
 }
 #endif
